@@ -77,6 +77,21 @@ class SortedView:
     def truth(self, I):
         return self.seq.length > 0 if isinstance(self.seq, SymSeq) else bool(self.seq)
 
+    def as_symseq(self, I):
+        """the sorted result as a sequence: element i is seq[perm(i)] for an (uninterpreted) permutation"""
+        if not isinstance(self.seq, SymSeq):
+            raise Unsupported("sorted view of a composite sequence used as a sequence")
+        if getattr(self, "_ss", None) is None:
+            I._fresh_n += 1
+            perm = z3.Function(f"perm!{I._fresh_n}", z3.IntSort(), z3.IntSort())
+            seq = self.seq
+
+            def elem(i):
+                I.assume(z3.Implies(z3.And(i >= 0, i < seq.length), z3.And(perm(i) >= 0, perm(i) < seq.length)))
+                return seq.elem(perm(i))
+            self._ss = SymSeq(f"sorted({seq.name})", seq.length, elem, contains=seq.contains)
+        return self._ss
+
 
 class ConcatSeq:
     """concatenation of sequences (concrete lists and symbolic-length sequences), e.g. `xs + list(d.values())`"""
@@ -105,4 +120,71 @@ class ConcatSeq:
         import ast as _ast
         if isinstance(op, _ast.Add) and isinstance(other, (list, tuple, SymSeq, ConcatSeq)):
             return ConcatSeq([other, self] if reflected else [self, other])
+        return NotImplemented
+
+
+class AbsMap:
+    """a dict of unknown content: symbolic size n >= 0, membership `has(k)` is an uninterpreted Boolean per queried key
+    (memoised by key), values are opaque per key; stores and deletes are recorded (and reflected in later lookups of
+    the same key).  Used for dicts owned by the environment (accepted contexts, pending C-CANCELs)."""
+
+    def __init__(self, I, name, value_of=None):
+        self.I, self.name = I, name
+        self.n = I.fresh("int", f"len({name})").e
+        I.assume(self.n >= 0)
+        self.q = []          # (key, z3 Bool member, value)
+        self.stores, self.deletes = [], []
+        self.value_of = value_of
+
+    def _find(self, I, k):
+        for ent in self.q:
+            t = I.eq(ent[0], k)
+            if t is True or (not isinstance(t, bool) and I.valid(t)):
+                return ent
+        b = I.fresh("bool", f"in({self.name})")
+        v = self.value_of(I, k) if self.value_of else I.opaque(f"{self.name}[..]")
+        ent = [k, b.e, v]
+        self.q.append(ent)
+        return ent
+
+    def truth(self, I):
+        return self.n > 0
+
+    def sym_len(self, I):
+        return SV(self.n, "int")
+
+    def sym_contains(self, I, k):
+        return self._find(I, k)[1]
+
+    def sym_index(self, I, k):
+        ent = self._find(I, k)
+        if not I.branch(SV(ent[1], "bool") if not isinstance(ent[1], bool) else ent[1], "map-lookup"):
+            raise PyRaise(ExcVal("KeyError", (k,)))
+        return ent[2]
+
+    def sym_setitem(self, I, k, v):
+        ent = self._find(I, k)
+        self.stores.append((k, v, ent[1]))
+        self.n = z3.If(ent[1] if not isinstance(ent[1], bool) else z3.BoolVal(ent[1]), self.n, self.n + 1)
+        ent[1] = True
+        ent[2] = v
+
+    def sym_delitem(self, I, k):
+        ent = self._find(I, k)
+        if not I.branch(SV(ent[1], "bool") if not isinstance(ent[1], bool) else ent[1], "map-del"):
+            raise PyRaise(ExcVal("KeyError", (k,)))
+        self.deletes.append(k)
+        self.n = self.n - 1
+        ent[1] = False
+
+    def sym_method(self, I, name, args, kw):
+        if name == "get":
+            ent = self._find(I, args[0])
+            if I.branch(SV(ent[1], "bool") if not isinstance(ent[1], bool) else ent[1], "map-get"):
+                return ent[2]
+            return args[1] if len(args) > 1 else None
+        if name == "values":
+            return SymSeq(f"{self.name}.values", self.n, lambda i: I.opaque(f"{self.name}.value"))
+        if name == "keys":
+            return SymSeq(f"{self.name}.keys", self.n, lambda i: I.opaque(f"{self.name}.key"))
         return NotImplemented
